@@ -84,6 +84,7 @@ fn main() {
         "JPT" => jpt::replay(&cases, &mut rep),
         "TFR" => jpt::replay_tfr(&cases, &mut rep),
         "SDVC" => sdvc::replay(&cases, &mut rep),
+        "SDVCFLOW" => sdvc::replay_flow(&cases, &mut rep),
         p => tool_error(&format!("no replay driver for {p}")),
       }
       rep.write(&args[4]);
